@@ -1,10 +1,357 @@
 (* C19.D1: the table regenerated from the working tree is the emission model, key by key (so a changed `_qasm_` rule
    breaks this file), and the rows of the model mean, through the standard library, the documented matrices. *)
 From Coq Require Import Ring List ZArith Bool.
-From VF Require Import Base.RingOps Base.Mat Base.Tensor Gates.GateSpecs Gates.Families Gates.MatTac
-  Vendor.Qasm Vendor.QasmEmit Vendor.QasmProofs Generated.QasmMnemonics.
+From VF Require Import Base.RingOps Base.Mat Base.Tensor Base.K8 Base.Harness Gates.GateSpecs Gates.Families Gates.MatTac
+  Vendor.Qasm Vendor.QasmEmit Vendor.QasmProofs Vendor.QasmLibProofs Generated.QasmMnemonics.
 Import ListNotations.
 
 Theorem qasm_table_is_model : table_ok qasm_table = true.
 Proof. vm_compute. reflexivity. Qed.
 
+(* ---- every key of the model: the rows it emits, read with qelib1.inc, are the documented matrix up to a unit ----
+   r = exp(i pi e/2) for the exponent class (q^k for e = k/4, q = exp(i pi/8)), g = exp(i pi e s) for the shift class *)
+Section Sound.
+  Context {K : Type} (O : Ops K) (L : Laws O).
+  Add Ring Kring4 : (law_ring O L).
+  Infix "+" := (kadd O). Infix "*" := (kmul O). Infix "-" := (ksub O).
+  Notation "- a" := (kopp O a).
+  Notation z0 := (k0 O). Notation z1 := (k1 O). Notation hf := (khalf O). Notation ii := (ki O). Notation s2 := (ks2 O).
+
+  Lemma is_spec_true e k : is_spec e k = true -> e = ESpec k.
+  Proof. destruct e as [j|]; simpl; [|discriminate]. intros H. apply Z.eqb_eq in H. subst. reflexivity. Qed.
+
+  Lemma kpow_unit x y n : x * y = z1 -> kpow O x n * kpow O y n = z1.
+  Proof. intros H. induction n as [|n IH]; simpl; [ring|]. transitivity ((x * y) * (kpow O x n * kpow O y n)); [ring|]. rewrite H, IH. ring. Qed.
+  Lemma kpowZ_unit x y k : x * y = z1 -> kpowZ O x y k * kpowZ O y x k = z1.
+  Proof.
+    intros H. destruct k; simpl; [ring | apply kpow_unit; exact H|]. apply kpow_unit. rewrite <- H. ring.
+  Qed.
+
+  Variables q qc : K.
+  Hypothesis Uq : q * qc = z1.
+  Hypothesis Q8 : q * q = w8 O.
+  Lemma QC8' : qc * qc = s2 * (z1 - ii). Proof. exact (qc_sq O L q qc Uq Q8). Qed.
+  Lemma Q8' : q * q = s2 * (z1 + ii). Proof. exact Q8. Qed.
+
+  Ltac rg H1 H2 H3 := first [ ring [H1 H2 H3 Uq Q8' QC8' (qh2 O L) (qi2 O L) (qs22 O L)]
+                     | apply (qcancel2 O L); ring [H1 H2 H3 Uq Q8' QC8' (qh2 O L) (qi2 O L) (qs22 O L)]
+                     | do 2 apply (qcancel2 O L); ring [H1 H2 H3 Uq Q8' QC8' (qh2 O L) (qi2 O L) (qs22 O L)]
+                     | do 3 apply (qcancel2 O L); ring [H1 H2 H3 Uq Q8' QC8' (qh2 O L) (qi2 O L) (qs22 O L)]
+                     | do 4 apply (qcancel2 O L); ring [H1 H2 H3 Uq Q8' QC8' (qh2 O L) (qi2 O L) (qs22 O L)] ].
+  Ltac with_phase H1 H2 H3 ph phc :=
+    exists ph, phc; split; [ cbv -[kadd kmul kopp ksub kconj k0 k1 ki khalf ks2]; rg H1 H2 H3 | mat_entries ltac:(rg H1 H2 H3) ].
+
+  (* generic rotation rows *)
+  Section Rot.
+    Variables a ac g gc : K.
+    Hypothesis Ua : a * ac = z1.
+    Hypothesis Ug : g * gc = z1.
+    Lemma rot_rx : up_to_unit O (spec_XPow O a ac g) (body_unitary O 1 [(qmat O false (QRx a ac), [0])]).
+    Proof. with_phase Ua Ug Ug (g * a) (gc * ac). Qed.
+    Lemma rot_ry : up_to_unit O (spec_YPow O a ac g) (body_unitary O 1 [(qmat O false (QRy a ac), [0])]).
+    Proof. with_phase Ua Ug Ug (g * a) (gc * ac). Qed.
+    Lemma rot_rz : up_to_unit O (spec_ZPow O a ac g) (body_unitary O 1 [(qmat O false (QRz a ac), [0])]).
+    Proof. with_phase Ua Ug Ug g gc. Qed.
+  End Rot.
+
+  Lemma body1 a b c d : body_unitary O 1 [([[a; b]; [c; d]], [0])] = [[a; b]; [c; d]].
+  Proof. mat_entries ltac:(ring). Qed.
+  Lemma body1' m : (exists a b c d, m = [[a; b]; [c; d]]) -> body_unitary O 1 [(m, [0])] = m.
+  Proof. intros [a [b [c [d E]]]]. subst. apply body1. Qed.
+  Ltac two := repeat eexists; reflexivity.
+
+  Ltac cb := cbv -[kadd kmul kopp ksub kconj k0 k1 ki khalf ks2].
+  (* powers of q = exp(i pi/8) *)
+  Lemma kq4 : kpowZ O q qc 4 = ii. Proof. cb. rg Uq Uq Uq. Qed.
+  Lemma kqc4 : kpowZ O qc q 4 = - ii. Proof. cb. rg Uq Uq Uq. Qed.
+  Lemma kq2 : kpowZ O q qc 2 = w8 O. Proof. cb. rg Uq Uq Uq. Qed.
+  Lemma kqc2 : kpowZ O qc q 2 = w8c O. Proof. cb. rg Uq Uq Uq. Qed.
+  Lemma kqm2 : kpowZ O q qc (-2) = w8c O. Proof. cb. rg Uq Uq Uq. Qed.
+  Lemma kqcm2 : kpowZ O qc q (-2) = w8 O. Proof. cb. rg Uq Uq Uq. Qed.
+  Lemma kq0 : kpowZ O q qc 0 = z1. Proof. reflexivity. Qed.
+
+  Variables r rc g gc : K.
+  Hypothesis U : r * rc = z1.
+  Hypothesis Ug : g * gc = z1.
+
+  Lemma eunit_unit e : fst (eunit O e r rc q qc) * snd (eunit O e r rc q qc) = z1.
+  Proof. destruct e; simpl; [apply kpowZ_unit; exact Uq | exact U]. Qed.
+
+  (* a special-exponent branch: the guard pins the class, the units become concrete *)
+  Ltac pin G e s HS :=
+    apply andb_prop in G; destruct G as [?Hs ?He]; apply is_spec_true in He; subst e; destruct s; try discriminate;
+    destruct HS as [?Hg ?Hgc]; subst g gc; cbn [eunit fst snd].
+  Ltac unit1 := exists (k1 O), (k1 O); split; [ring|].
+  Ltac scaled_id := cbv -[kadd kmul kopp ksub kconj k0 k1 ki khalf ks2]; split_list; ring.
+
+  Lemma mscale1 (m : matrix (K:=K)) a b c d : m = [[a; b]; [c; d]] -> mscale O z1 m = m.
+  Proof. intros ->. scaled_id. Qed.
+
+  Theorem emit_sound_X v3 s e : let u := eunit O e r rc q qc in shift_ok O s g gc (fst u) (snd u) ->
+    rows_mean O 1 [(r, rc)] q qc (emit_shape (v3, FX, s, e)) (spec_XPow O (fst u) (snd u) g).
+  Proof.
+    intros u HS. subst u. unfold emit_shape.
+    destruct (s0 s && is_spec e 4) eqn:G1.
+    { pin G1 e s HS. rewrite kq4, kqc4. eexists; split; [reflexivity|]. unit1.
+      rewrite body1' by two. rewrite (qasm_rule_x O L). symmetry. eapply mscale1. reflexivity. }
+    destruct (s0 s && is_spec e 2) eqn:G2.
+    { pin G2 e s HS. rewrite kq2, kqc2. eexists; split; [reflexivity|]. exists (w8 O), (w8c O). split; [apply (w8_unit O L)|].
+      rewrite body1' by two. exact (qasm_rule_sx O L). }
+    destruct (s0 s && is_spec e (-2)) eqn:G3.
+    { pin G3 e s HS. rewrite kqm2, kqcm2. eexists; split; [reflexivity|]. exists (w8c O), (w8 O). split; [rewrite <- (w8_unit O L); ring|].
+      rewrite body1' by two. exact (qasm_rule_sxdg O L). }
+    destruct e as [k|]; cbn [eunit fst snd].
+    - eexists; split; [reflexivity|]. apply (rot_rx _ _ g gc); [apply kpowZ_unit; exact Uq | exact Ug].
+    - eexists; split; [reflexivity|]. with_phase U Ug Ug (g * r) (gc * rc).
+  Qed.
+
+  Lemma one_r x : x * z1 = x. Proof. ring. Qed.
+  Lemma kpowZ_neg x y k : kpowZ O x y (- k) = kpowZ O y x k.
+  Proof. destruct k; reflexivity. Qed.
+  Lemma kq1sq : kpowZ O q qc 1 * kpowZ O q qc 1 = w8 O. Proof. cb. rg Uq Uq Uq. Qed.
+  Lemma kqm1sq : kpowZ O q qc (-1) * kpowZ O q qc (-1) = w8c O. Proof. cb. rg Uq Uq Uq. Qed.
+
+  Theorem emit_sound_Y v3 s e : let u := eunit O e r rc q qc in
+    rows_mean O 1 [(r, rc)] q qc (emit_shape (v3, FY, s, e)) (spec_YPow O (fst u) (snd u) g).
+  Proof.
+    intros u. subst u. unfold emit_shape.
+    destruct (is_spec e 4 && negb match s with SMhalf => true | _ => false end) eqn:G1.
+    { apply andb_prop in G1. destruct G1 as [He _]. apply is_spec_true in He. subst e. cbn [eunit fst snd]. rewrite kq4, kqc4.
+      eexists; split; [reflexivity|]. exists g, gc. split; [exact Ug|]. rewrite body1' by two. exact (qasm_rule_y O L g). }
+    destruct e as [k|]; cbn [eunit fst snd].
+    - eexists; split; [reflexivity|]. apply (rot_ry _ _ g gc); [apply kpowZ_unit; exact Uq | exact Ug].
+    - eexists; split; [reflexivity|]. with_phase U Ug Ug (g * r) (gc * rc).
+  Qed.
+
+  Theorem emit_sound_Z v3 s e : let u := eunit O e r rc q qc in shift_ok O s g gc (fst u) (snd u) ->
+    rows_mean O 1 [(r, rc)] q qc (emit_shape (v3, FZ, s, e)) (spec_ZPow O (fst u) (snd u) g).
+  Proof.
+    intros u HS. subst u. unfold emit_shape.
+    destruct (s0 s && is_spec e 4) eqn:G1.
+    { pin G1 e s HS. rewrite kq4, kqc4. eexists; split; [reflexivity|]. unit1.
+      rewrite body1' by two. rewrite (qasm_rule_z O L). symmetry. eapply mscale1. reflexivity. }
+    destruct (s0 s && is_spec e 2) eqn:G2.
+    { pin G2 e s HS. rewrite kq2, kqc2. eexists; split; [reflexivity|]. unit1.
+      rewrite body1' by two. rewrite (qasm_rule_s O L). symmetry. eapply mscale1. reflexivity. }
+    destruct (s0 s && is_spec e (-2)) eqn:G3.
+    { pin G3 e s HS. rewrite kqm2, kqcm2. eexists; split; [reflexivity|]. unit1.
+      rewrite body1' by two. rewrite (qasm_rule_sdg O L). symmetry. eapply mscale1. reflexivity. }
+    destruct (s0 s && is_spec e 1) eqn:G4.
+    { pin G4 e s HS. eexists; split; [reflexivity|]. unit1.
+      rewrite body1' by two. rewrite (qasm_rule_t O L _ _ (kpowZ_unit q qc 1 Uq) kq1sq). symmetry. eapply mscale1. reflexivity. }
+    destruct (s0 s && is_spec e (-1)) eqn:G5.
+    { pin G5 e s HS. eexists; split; [reflexivity|]. unit1.
+      rewrite body1' by two. rewrite (qasm_rule_tdg O L _ _ (kpowZ_unit q qc (-1) Uq) kqm1sq). symmetry. eapply mscale1. reflexivity. }
+    destruct e as [k|]; cbn [eunit fst snd].
+    - eexists; split; [reflexivity|]. apply (rot_rz _ _ g gc); [apply kpowZ_unit; exact Uq | exact Ug].
+    - eexists; split; [reflexivity|]. with_phase U Ug Ug g gc.
+  Qed.
+
+  (* ry(pi/4); rx(theta); ry(-pi/4) around any unit a = exp(i theta/2) *)
+  Lemma hpow_rows a ac a' ac' : a * ac = z1 -> a' = a -> ac' = ac ->
+    up_to_unit O (spec_HPow O a ac g)
+      (body_unitary O 1 [(qmat O false (QRy (kpowZ O q qc 1) (kpowZ O qc q 1)), [0]); (qmat O false (QRx a' ac'), [0]);
+                         (qmat O false (QRy (kpowZ O q qc (-1)) (kpowZ O qc q (-1))), [0])]).
+  Proof. intros Ua -> ->. with_phase Ua Ug Ug (g * a) (gc * ac). Qed.
+
+  Theorem emit_sound_H v3 s e : let u := eunit O e r rc q qc in shift_ok O s g gc (fst u) (snd u) ->
+    rows_mean O 1 [(r, rc)] q qc (emit_shape (v3, FH, s, e)) (spec_HPow O (fst u) (snd u) g).
+  Proof.
+    intros u HS. subst u. unfold emit_shape.
+    destruct (is_spec e 0) eqn:G0.
+    { apply is_spec_true in G0. subst e. cbn [eunit fst snd kpowZ]. eexists; split; [reflexivity|]. with_phase Ug Ug Ug g gc. }
+    destruct (s0 s && is_spec e 4) eqn:G1.
+    { pin G1 e s HS. rewrite kq4, kqc4. eexists; split; [reflexivity|]. unit1.
+      rewrite body1' by two. rewrite (qasm_rule_h O L). symmetry. eapply mscale1. reflexivity. }
+    destruct e as [k|]; cbn [eunit fst snd].
+    - eexists; split; [reflexivity|]. apply hpow_rows; [apply kpowZ_unit; exact Uq | reflexivity | reflexivity].
+    - eexists; split; [reflexivity|]. apply hpow_rows; [exact U | cb; ring | cb; ring].
+  Qed.
+
+  Theorem emit_sound_Rx v3 s e : let u := eunit O e r rc q qc in
+    rows_mean O 1 [(r, rc)] q qc (emit_shape (v3, FRx, s, e)) (spec_XPow O (fst u) (snd u) g).
+  Proof.
+    intros u. subst u. unfold emit_shape. destruct e as [k|]; cbn [eunit fst snd].
+    - eexists; split; [reflexivity|]. apply (rot_rx _ _ g gc); [apply kpowZ_unit; exact Uq | exact Ug].
+    - eexists; split; [reflexivity|]. with_phase U Ug Ug (g * r) (gc * rc).
+  Qed.
+  Theorem emit_sound_Ry v3 s e : let u := eunit O e r rc q qc in
+    rows_mean O 1 [(r, rc)] q qc (emit_shape (v3, FRy, s, e)) (spec_YPow O (fst u) (snd u) g).
+  Proof.
+    intros u. subst u. unfold emit_shape. destruct e as [k|]; cbn [eunit fst snd].
+    - eexists; split; [reflexivity|]. apply (rot_ry _ _ g gc); [apply kpowZ_unit; exact Uq | exact Ug].
+    - eexists; split; [reflexivity|]. with_phase U Ug Ug (g * r) (gc * rc).
+  Qed.
+  Theorem emit_sound_Rz v3 s e : let u := eunit O e r rc q qc in
+    rows_mean O 1 [(r, rc)] q qc (emit_shape (v3, FRz, s, e)) (spec_ZPow O (fst u) (snd u) g).
+  Proof.
+    intros u. subst u. unfold emit_shape. destruct e as [k|]; cbn [eunit fst snd].
+    - eexists; split; [reflexivity|]. apply (rot_rz _ _ g gc); [apply kpowZ_unit; exact Uq | exact Ug].
+    - eexists; split; [reflexivity|]. with_phase U Ug Ug g gc.
+  Qed.
+
+  (* ---- two-qubit families: a QASM form only in the odd class, whose meaning is exp(i pi e) = r*r = -1 ---- *)
+  Lemma body2 a0 a1 a2 a3 b0 b1 b2 b3 c0 c1 c2 c3 d0 d1 d2 d3 :
+    let m := [[a0; a1; a2; a3]; [b0; b1; b2; b3]; [c0; c1; c2; c3]; [d0; d1; d2; d3]] in body_unitary O 2 [(m, [0; 1])] = m.
+  Proof. mat_entries ltac:(ring). Qed.
+  Lemma body2' m : (exists a0 a1 a2 a3 b0 b1 b2 b3 c0 c1 c2 c3 d0 d1 d2 d3,
+                      m = [[a0; a1; a2; a3]; [b0; b1; b2; b3]; [c0; c1; c2; c3]; [d0; d1; d2; d3]]) ->
+    body_unitary O 2 [(m, [0; 1])] = m.
+  Proof.
+    intros [a0 [a1 [a2 [a3 [b0 [b1 [b2 [b3 [c0 [c1 [c2 [c3 [d0 [d1 [d2 [d3 E]]]]]]]]]]]]]]]]. rewrite E. apply body2.
+  Qed.
+
+  Theorem emit_sound_CZ v3 s e : let u := eunit O e r rc q qc in (is_odd e = true -> fst u * fst u = - z1) ->
+    rows_mean O 2 [(r, rc)] q qc (emit_shape (v3, FCZ, s, e)) (spec_CZPow O (fst u) (snd u) g).
+  Proof.
+    intros u H. unfold emit_shape. destruct (is_odd e); [|exact I]. specialize (H eq_refl).
+    eexists; split; [reflexivity|]. exists g, gc. split; [exact Ug|]. rewrite body2' by two.
+    exact (qasm_rule_cz O L _ _ g (eunit_unit e) H).
+  Qed.
+  Theorem emit_sound_CX v3 s e : let u := eunit O e r rc q qc in (is_odd e = true -> fst u * fst u = - z1) ->
+    rows_mean O 2 [(r, rc)] q qc (emit_shape (v3, FCX, s, e)) (spec_CXPow O (fst u) (snd u) g).
+  Proof.
+    intros u H. unfold emit_shape. destruct (is_odd e); [|exact I]. specialize (H eq_refl).
+    eexists; split; [reflexivity|]. exists g, gc. split; [exact Ug|]. rewrite body2' by two.
+    exact (qasm_rule_cx O L _ _ g (eunit_unit e) H).
+  Qed.
+  Theorem emit_sound_CY v3 s e : let u := eunit O e r rc q qc in (is_odd e = true -> fst u * fst u = - z1) ->
+    rows_mean O 2 [(r, rc)] q qc (emit_shape (v3, FCY, s, e)) (spec_CYPow O (fst u) (snd u) g).
+  Proof.
+    intros u H. unfold emit_shape. destruct (is_odd e); [|exact I]. specialize (H eq_refl).
+    eexists; split; [reflexivity|]. exists g, gc. split; [exact Ug|]. rewrite body2' by two.
+    exact (qasm_rule_cy O L _ _ g (eunit_unit e) H).
+  Qed.
+  Theorem emit_sound_Swap v3 s e : let u := eunit O e r rc q qc in
+    rows_mean O 2 [(r, rc)] q qc (emit_shape (v3, FSwap, s, e)) (spec_SwapPow O (fst u) (snd u) g).
+  Proof.
+    intros u. subst u. unfold emit_shape. destruct (is_spec e 4) eqn:G; [|exact I]. apply is_spec_true in G. subst e.
+    cbn [eunit fst snd]. rewrite kq4, kqc4. eexists; split; [reflexivity|]. exists g, gc. split; [exact Ug|]. rewrite body2' by two.
+    exact (qasm_rule_swap O L g).
+  Qed.
+
+  (* ---- three-qubit gates ---- *)
+  Lemma body3_ccx : body_unitary O 3 [(q_ccx O, [0; 1; 2])] = q_ccx O.
+  Proof. mat_entries ltac:(ring). Qed.
+  Lemma body3_cswap : body_unitary O 3 [(q_cswap O, [0; 1; 2])] = q_cswap O.
+  Proof. mat_entries ltac:(ring). Qed.
+  Theorem emit_sound_CCZ v3 s e : let u := eunit O e r rc q qc in
+    rows_mean O 3 [(r, rc)] q qc (emit_shape (v3, FCCZ, s, e)) (spec_CCZPow O (fst u) (snd u) g).
+  Proof.
+    intros u. subst u. unfold emit_shape. destruct (is_spec e 4) eqn:G; [|exact I]. apply is_spec_true in G. subst e.
+    cbn [eunit fst snd]. rewrite kq4, kqc4. eexists; split; [reflexivity|]. exists g, gc. split; [exact Ug|].
+    exact (qasm_rule_ccz O L g).
+  Qed.
+  Theorem emit_sound_CCX v3 s e : let u := eunit O e r rc q qc in
+    rows_mean O 3 [(r, rc)] q qc (emit_shape (v3, FCCX, s, e)) (spec_CCXPow O (fst u) (snd u) g).
+  Proof.
+    intros u. subst u. unfold emit_shape. destruct (is_spec e 4) eqn:G; [|exact I]. apply is_spec_true in G. subst e.
+    cbn [eunit fst snd]. rewrite kq4, kqc4. eexists; split; [reflexivity|].
+    change (up_to_unit O (spec_CCXPow O ii (- ii) g) (body_unitary O 3 [(q_ccx O, [0; 1; 2])])). rewrite body3_ccx.
+    exists g, gc. split; [exact Ug|]. exact (qasm_rule_ccx O L g).
+  Qed.
+  Theorem emit_sound_CCY v3 s e : let u := eunit O e r rc q qc in
+    rows_mean O 3 [(r, rc)] q qc (emit_shape (v3, FCCY, s, e)) (spec_CCYPow O (fst u) (snd u) g).
+  Proof.
+    intros u. subst u. unfold emit_shape. destruct (is_spec e 4) eqn:G; [|exact I]. apply is_spec_true in G. subst e.
+    cbn [eunit fst snd]. rewrite kq4, kqc4. eexists; split; [reflexivity|]. exists g, gc. split; [exact Ug|].
+    exact (qasm_rule_ccy O L g).
+  Qed.
+  Theorem emit_sound_CSwap v3 s e : rows_mean O 3 [] q qc (emit_shape (v3, FCSwap, s, e)) (spec_CSwap O).
+  Proof.
+    unfold emit_shape. eexists; split; [reflexivity|].
+    change (up_to_unit O (spec_CSwap O) (body_unitary O 3 [(q_cswap O, [0; 1; 2])])). rewrite body3_cswap.
+    unit1. mat_entries ltac:(ring).
+  Qed.
+  Theorem emit_sound_Id1 v3 s e : rows_mean O 1 [] q qc (emit_shape (v3, FId1, s, e)) (mid O 2).
+  Proof. unfold emit_shape. eexists; split; [reflexivity|]. unit1. mat_entries ltac:(rg Uq Uq Uq). Qed.
+  Theorem emit_sound_Id2 v3 s e : rows_mean O 2 [] q qc (emit_shape (v3, FId2, s, e)) (mid O 4).
+  Proof. unfold emit_shape. eexists; split; [reflexivity|]. unit1. mat_entries ltac:(rg Uq Uq Uq). Qed.
+
+  (* ---- controlled X, Y, Z (exponent 1, shift 0) ---- *)
+  Theorem emit_sound_CtrlX v3 s e : rows_mean O 2 [] q qc (emit_shape (v3, FCtrlX, s, e)) (ctrl_matrix O [2] [[1]] (spec_XPow O ii (- ii) z1)).
+  Proof.
+    unfold emit_shape. destruct (s0 s && is_spec e 4); [|exact I]. eexists; split; [reflexivity|]. unit1. rewrite body2' by two.
+    rewrite (qasm_rule_ctrl_x O L). mat_entries ltac:(ring).
+  Qed.
+  Theorem emit_sound_CtrlY v3 s e : rows_mean O 2 [] q qc (emit_shape (v3, FCtrlY, s, e)) (ctrl_matrix O [2] [[1]] (spec_YPow O ii (- ii) z1)).
+  Proof.
+    unfold emit_shape. destruct (s0 s && is_spec e 4); [|exact I]. eexists; split; [reflexivity|]. unit1. rewrite body2' by two.
+    rewrite (qasm_rule_ctrl_y O L). unfold qmat, qmat2, q_cy, q_s, q_sdg. rewrite !(q_u1_lit O L). mat_entries ltac:(ring).
+  Qed.
+  Theorem emit_sound_CtrlZ v3 s e : rows_mean O 2 [] q qc (emit_shape (v3, FCtrlZ, s, e)) (ctrl_matrix O [2] [[1]] (spec_ZPow O ii (- ii) z1)).
+  Proof.
+    unfold emit_shape. destruct (s0 s && is_spec e 4); [|exact I]. eexists; split; [reflexivity|]. unit1. rewrite body2' by two.
+    rewrite (qasm_rule_ctrl_z O L). unfold qmat, qmat2. rewrite (q_cz_lit O L). mat_entries ltac:(ring).
+  Qed.
+
+  (* ---- u3 / u2 rows: PhasedXPowGate (parameters e, p), PhasedXZGate (x, z, a), QasmUGate (theta, phi, lmda) ---- *)
+  Section Phased.
+    Variables fh fhc zh zhc : K.       (* half-angle units of the second and third parameter *)
+    Hypothesis Uf : fh * fhc = z1.
+    Hypothesis Uz : zh * zhc = z1.
+    Lemma ff_unit : (fh * fh) * (fhc * fhc) = z1. Proof. rg Uf Uf Uf. Qed.
+
+    Lemma u3_rows_phasedx a ac t tc bh bhc ch chc : a * ac = z1 -> t = ac -> tc = a -> bh * bh = ii * (fh * fh) -> ch * ch = - ii * (fhc * fhc) ->
+      up_to_unit O (spec_PhasedX O (fh * fh) (fhc * fhc) a ac g) (body_unitary O 1 [(qmat O false (QU3 t tc bh bhc ch chc), [0])]).
+    Proof.
+      intros Ua -> -> Hb Hc. exists (g * a), (gc * ac). split; [rg Ua Ug Ug|]. rewrite body1' by two.
+      change (qmat O false (QU3 ac a bh bhc ch chc)) with (q_u3 O ac a (bh * bh) (ch * ch)). rewrite Hb, Hc.
+      apply (qasm_rule_phasedx O L); [exact ff_unit | exact Ua].
+    Qed.
+    Lemma u2_rows_mhalf bh bhc ch chc : bh * bh = ii * (fh * fh) -> ch * ch = - ii * (fhc * fhc) ->
+      up_to_unit O (spec_PhasedX O (fh * fh) (fhc * fhc) (w8c O) (w8 O) g) (body_unitary O 1 [(qmat O false (QU2 bh bhc ch chc), [0])]).
+    Proof.
+      intros Hb Hc. exists (g * w8c O), (gc * w8 O). split; [unfold w8, w8c; rg Ug Ug Ug|]. rewrite body1' by two.
+      change (qmat O false (QU2 bh bhc ch chc)) with (q_u2 O (bh * bh) (ch * ch)). rewrite Hb, Hc.
+      apply (qasm_rule_phasedx_mhalf O L _ _ r rc); [exact ff_unit | exact U].
+    Qed.
+    Lemma u2_rows_half bh bhc ch chc : bh * bh = - ii * (fh * fh) -> ch * ch = ii * (fhc * fhc) ->
+      up_to_unit O (spec_PhasedX O (fh * fh) (fhc * fhc) (w8 O) (w8c O) g) (body_unitary O 1 [(qmat O false (QU2 bh bhc ch chc), [0])]).
+    Proof.
+      intros Hb Hc. exists (g * w8 O), (gc * w8c O). split; [unfold w8, w8c; rg Ug Ug Ug|]. rewrite body1' by two.
+      change (qmat O false (QU2 bh bhc ch chc)) with (q_u2 O (bh * bh) (ch * ch)). rewrite Hb, Hc.
+      apply (qasm_rule_phasedx_half O L _ _ r rc); [exact ff_unit | exact U].
+    Qed.
+
+    (* the exponent is the canonicalised one, in (-1, 1]; fh = exp(i pi p/2) *)
+    Theorem emit_sound_PhasedX v3 s e : let u := eunit O e r rc q qc in
+      rows_mean O 1 [(r, rc); (fh, fhc)] q qc (emit_shape (v3, FPhasedX, s, e)) (spec_PhasedX O (fh * fh) (fhc * fhc) (fst u) (snd u) g).
+    Proof.
+      intros u. subst u. unfold emit_shape.
+      destruct (is_spec e (-2)) eqn:G1.
+      { apply is_spec_true in G1. subst e. cbn [eunit fst snd]. rewrite kqm2, kqcm2. eexists; split; [reflexivity|].
+        apply u2_rows_mhalf; cb; rg Uf Uf Uf. }
+      destruct (is_spec e 2) eqn:G2.
+      { apply is_spec_true in G2. subst e. cbn [eunit fst snd]. rewrite kq2, kqc2. eexists; split; [reflexivity|].
+        apply u2_rows_half; cb; rg Uf Uf Uf. }
+      destruct e as [k|]; cbn [eunit fst snd].
+      - eexists; split; [reflexivity|].
+        apply u3_rows_phasedx; [apply kpowZ_unit; exact Uq | exact (kpowZ_neg q qc k) | exact (kpowZ_neg qc q k) | cb; rg Uf Uf Uf | cb; rg Uf Uf Uf].
+      - eexists; split; [reflexivity|].
+        apply u3_rows_phasedx; [exact U | cb; ring | cb; ring | cb; rg Uf Uf Uf | cb; rg Uf Uf Uf].
+    Qed.
+
+    (* PhasedXZGate(x, z, a): r = exp(i pi x/2), fh = exp(i pi z/2), zh = exp(i pi a/2) *)
+    Theorem emit_sound_PhasedXZ v3 s e :
+      rows_mean O 1 [(r, rc); (fh, fhc); (zh, zhc)] q qc (emit_shape (v3, FPhasedXZ, s, e))
+                (spec_PhasedXZ O (zh * zh) (zhc * zhc) (fh * fh) (fhc * fhc) r rc).
+    Proof. unfold emit_shape. eexists; split; [reflexivity|]. with_phase U Uf Uz r rc. Qed.
+
+    (* QasmUGate(theta, phi, lmda), defined by its decomposition rz(lmda); ry(theta); rz(phi); phase:
+       r = exp(i pi theta/2), fh = exp(i pi phi/2), zh = exp(i pi lmda/2) *)
+    Theorem emit_sound_QasmU v3 s e :
+      rows_mean O 1 [(r, rc); (fh, fhc); (zh, zhc)] q qc (emit_shape (v3, FQasmU, s, e))
+                (mscale O (fh * zh) (mprod O 2 [spec_ZPow O zh zhc zhc; spec_YPow O r rc rc; spec_ZPow O fh fhc fhc])).
+    Proof. unfold emit_shape. eexists; split; [reflexivity|]. with_phase U Uf Uz (k1 O) (k1 O). Qed.
+  End Phased.
+End Sound.
+
+(* controlled H: a constant matrix identity, checked exactly in Q(zeta_8) *)
+Theorem emit_sound_CtrlH v3 s e :
+  rows_mean K8Ops 2 [] (k1 K8Ops) (k1 K8Ops) (emit_shape (v3, FCtrlH, s, e))
+            (ctrl_matrix K8Ops [2%nat] [[1%nat]] (spec_HPow K8Ops (ki K8Ops) (kopp K8Ops (ki K8Ops)) (k1 K8Ops))).
+Proof.
+  unfold emit_shape. destruct (s0 s && is_spec e 4); [|exact I]. eexists; split; [reflexivity|].
+  exists (w8c K8Ops), (w8 K8Ops). split; [apply k8_eqb_eq; vm_compute; reflexivity | apply k8m_eqb_eq; vm_compute; reflexivity].
+Qed.
